@@ -118,6 +118,8 @@ func checkValues(ctx string, src string, vals []cssTok) string {
 					endsCompound := isWordLike(a.tt) && a.tt != css.FunctionToken || a.data == "]" || a.data == ")" || a.data == "*" || a.data == "&"
 					startsCompound := b.tt == css.IdentToken || b.tt == css.HashToken || b.data == "." || b.data == ":" || b.data == "[" || b.data == "*" || b.data == "&" || b.tt == css.FunctionToken
 					must = endsCompound && startsCompound && inAttr == 0
+					// two tokens that are not punctuation (an+b arguments such as "2n +1", attribute words)
+					must = must || isWordLike(a.tt) && a.tt != css.FunctionToken && isWordLike(b.tt)
 				case "value":
 					must = (isWordLike(a.tt) && a.tt != css.FunctionToken || a.data == ")") && isWordLike(b.tt)
 				case "prelude":
@@ -187,7 +189,7 @@ var c08Decls = []declSpec{
 
 var c08Customs = []string{" {a;b} [c] (d)", "", "1", " a  b\tc ", "{ x: y }", " \"s;\" ';' url(;)", "(a;b)"}
 
-var c08Selectors = []string{"a", "a b", "a>b", "a > b", "a , b", "a,b", ".c", "a.c #d", "#d:hover", "a :first-child", "a[b=\"c\"]", "a[ b = \"c\" i ]", "a:not(b , .c) d", "a:not([href]) b", "* + *", "a::before", "a~b", "A B", "a\tb\n>\nc", "a /**/ b", ":is( [x] , .y ) z", "h1 , h2:where(.a .b) c", "a [b]", "a:not([b]) [c]"}
+var c08Selectors = []string{"li:nth-child(2n +1)", "li:nth-child( 2n + 1 )", ":nth-child(-n +3) b", "a:nth-of-type(+3n -2)", "a:nth-child(2n+1 of .b  .c)", "a", "a b", "a>b", "a > b", "a , b", "a,b", ".c", "a.c #d", "#d:hover", "a :first-child", "a[b=\"c\"]", "a[ b = \"c\" i ]", "a:not(b , .c) d", "a:not([href]) b", "* + *", "a::before", "a~b", "A B", "a\tb\n>\nc", "a /**/ b", ":is( [x] , .y ) z", "h1 , h2:where(.a .b) c", "a [b]", "a:not([b]) [c]"}
 
 var c08Preludes = []string{"", "screen", "screen and (min-width:100px)", "screen and ( min-width : 100px )", "a , b", "url(x) print", "(display:grid) and (not (a:b))", "x y"}
 
@@ -226,9 +228,15 @@ func atStatement(name, prelude string) cItem {
 }
 
 // unknown at-rule block: every token of the body is a Token unit (whitespace kept, comments dropped)
-func atUnknown(name, body string) cItem {
-	r := cItem{src: name + "{" + body + "}"}
-	r.units = append(r.units, gUnit{css.BeginAtRuleGrammar, strings.ToLower(name), "prelude", ""})
+func atUnknown(name, body string) cItem { return atUnknownP(name, "", body) }
+
+func atUnknownP(name, prelude, body string) cItem {
+	sp := ""
+	if prelude != "" {
+		sp = " "
+	}
+	r := cItem{src: name + sp + prelude + "{" + body + "}"}
+	r.units = append(r.units, gUnit{css.BeginAtRuleGrammar, strings.ToLower(name), "prelude", prelude})
 	ref := refCSSLex([]byte(body))
 	for i, t := range ref.toks {
 		if t.tt == css.CommentToken || i == 0 && t.tt == css.WhitespaceToken {
@@ -288,6 +296,14 @@ func c08TopItems(thorough bool) []cItem {
 	items = append(items, atStatement("@import", "url(\"a.css\") screen"), atStatement("@import", "'a.css'"), atStatement("@namespace", "svg url(http://www.w3.org/2000/svg)"))
 	for _, b := range []string{"a:b;c{d:e}", " a : b ", "", "x y{z}", "a/* c */b", "(a{b}c)"} {
 		items = append(items, atUnknown("@unknown", b), atUnknown("@-ms-viewport", b))
+	}
+	// unknown at-rules whose block contains functions, brackets and nested blocks; with and without a prelude
+	for _, b := range []string{"a{width:calc(1px + 2px)}", "w:rgb(0 0 0)", "f(g(h))", "a{b:url(x) c(d)}e{f:g}", "(a(b)c)", "a[b(c)]{d}", "x:f(", "{}{{}}", "a{b:c(d)}e", "[f(]g)"} {
+		if strings.Count(b, "(") == strings.Count(b, ")") && strings.Count(b, "[") == strings.Count(b, "]") {
+			for _, p := range []string{"", "(min-width:400px)", "name (a) and (b:c(d))", "f(x) y"} {
+				items = append(items, atUnknownP("@container", p, b), atUnknownP("@Unknown", p, b))
+			}
+		}
 	}
 	// top-level comments, CDO/CDC
 	items = append(items, cItem{"/* c */", []gUnit{{css.CommentGrammar, "/* c */", "", ""}}}, cItem{"<!--", []gUnit{{css.TokenGrammar, "<!--", "", ""}}}, cItem{"-->", []gUnit{{css.TokenGrammar, "-->", "", ""}}})
